@@ -221,6 +221,8 @@ func main() {
 		cmdSynTrees(os.Args[2:])
 	case "syn-check":
 		cmdSynCheck(os.Args[2:])
+	case "lex-check":
+		cmdLexCheck(os.Args[2:])
 	case "front-replay":
 		cmdFrontReplay(os.Args[2:])
 	case "portion-check":
